@@ -1,15 +1,16 @@
 #!/bin/bash
 # usage: tools/try_mutant.sh <patch.diff> <tier> <ID> [<ID>...]
-# applies the patch to /repo, runs the given checks, ALWAYS reverts /repo afterwards. Evidence/replays are written to a scratch dir copy? no:
-# they are written to /verif as usual; callers should `git checkout evidence` afterwards if they do not want them.
+# Applies the patch to a scratch worktree of /repo HEAD (never to /repo itself), runs the given checks against it through
+# PV_SRC (the only use of that variable), and removes the worktree.  Evidence written during such a run describes the mutated
+# tree: re-run the checks on /repo before committing evidence.
 set -u
-PATCH="$1"; TIER="$2"; shift 2
-cd /repo || exit 2
-if ! git diff --quiet; then echo "REPO NOT CLEAN"; exit 2; fi
-trap 'git -C /repo checkout -- . ; ' EXIT
-git apply "$PATCH" || { echo "PATCH DOES NOT APPLY"; exit 2; }
+PATCH="$(readlink -f "$1")"; TIER="$2"; shift 2
+WT=/tmp/mutrun.$$
+git -C /repo worktree add -q --detach "$WT" HEAD || exit 2
+trap 'git -C /repo worktree remove --force "$WT" >/dev/null 2>&1' EXIT
+git -C "$WT" apply "$PATCH" || { echo "PATCH DOES NOT APPLY"; exit 2; }
 cd /verif
 for id in "$@"; do
-  out=$(./check "$id" --tier "$TIER" 2>&1); rc=$?
+  out=$(PV_SRC="$WT/src" ./check "$id" --tier "$TIER" 2>&1); rc=$?
   echo "== $id rc=$rc"; echo "$out" | grep -E "VIOLATION|what:|KNOWN|HARNESS|evaluations" | head -8
 done
